@@ -423,7 +423,10 @@ enum REv {
 }
 
 fn gen_roll_case(r: &mut Rng, decodable: bool) -> RollCase {
-    let n = r.range(1, 5) as u32;
+    // a quarter of the cases: windows of many buckets (a cap on the number of live buckets, or a cost per configured
+    // bucket, shows only there); they get long histories that step about one bucket at a time
+    let many = r.chance(1, 4);
+    let n = if many { *r.pick(&[8u32, 15, 16, 17, 20, 33, 64]) } else { r.range(1, 5) as u32 };
     let d = *r.pick(&[1u64, 2, 3, 7, 10, 1000, 1_000_000_000]);
     let w = n as u64 * d;
     let start = *r.pick(&[0, 1, d - 1, d, w - 1, w, w + 1, 5 * w + 3]);
@@ -449,10 +452,16 @@ fn gen_roll_case(r: &mut Rng, decodable: bool) -> RollCase {
         dy(1),
     ];
     let mut events = vec![];
-    let nev = r.range(1, 30);
+    let nev = if many { r.range(20, 90) } else { r.range(1, 30) };
     // biased towards small steps so that several buckets are live at once
     for _ in 0..nev {
-        let step = if r.chance(1, 2) { *r.pick(&[0, 1, d - 1, d, d + 1, d / 2]) } else { *r.pick(&steps) };
+        let step = if many && !r.chance(1, 12) {
+            *r.pick(&[0, d, d, d, d + 1, d / 2, 2 * d])
+        } else if r.chance(1, 2) {
+            *r.pick(&[0, 1, d - 1, d, d + 1, d / 2])
+        } else {
+            *r.pick(&steps)
+        };
         let ev = match r.below(10) {
             0 | 1 => REv::Snap,
             2 => REv::Flush,
@@ -479,7 +488,7 @@ fn run_roll_case(out: &mut Out, c: &RollCase) {
     let quantiles = Arc::new(parse_quantiles(&[0.0, 0.5, 1.0]));
     let mut dist = Distribution::new_summary(quantiles, Duration::from_nanos(c.d), NonZeroU32::new(c.n).unwrap());
     out.op(&format!("c15 rnew {} {}", c.n, c.d), "ok");
-    out.count(&format!("R.decodable={} n={} d={}", c.decodable, c.n, if c.d >= 1000 { "big" } else { "small" }));
+    out.count(&format!("R.decodable={} n={} d={}", c.decodable, if c.n > 7 { ">7".to_string() } else { c.n.to_string() }, if c.d >= 1000 { "big" } else { "small" }));
     let scale = (c.scale_exp as f64).exp2();
     if c.decodable {
         out.count(&format!("R.decodable scale=2^{}", c.scale_exp));
@@ -529,6 +538,17 @@ fn run_roll_case(out: &mut Out, c: &RollCase) {
                 }
                 if count != added.len() {
                     out.oracle_fail("summary count() is not the number of samples added", &format!("{} vs {}", count, added.len()));
+                }
+                {
+                    // how many window buckets certainly hold a retained sample (distinct aligned slots among `lower`)
+                    let mut slots: Vec<u64> = added.iter().filter(|(v, ts)| kept(*v) && ts + w > now + c.d).map(|x| x.1 / c.d).collect();
+                    slots.sort();
+                    slots.dedup();
+                    if slots.len() > 16 {
+                        out.count("R.snapshot over more than 16 live buckets");
+                    } else if slots.len() > 7 {
+                        out.count("R.snapshot over more than 7 live buckets");
+                    }
                 }
                 if retained < lower.len() || retained > upper.len() {
                     out.oracle_fail(
@@ -1074,12 +1094,508 @@ fn dist_corpus() -> Vec<DistCase> {
 }
 
 // ---------------------------------------------------------------------------------------------
+// stream E: how a histogram NAME is exposed by a whole recorder — family name (unit suffix on/off, described units),
+// `# TYPE`, bucket lines of every label set — against override tables of up to 24 matchers whose patterns are built
+// from the plain name, from the EXPOSED family name (name + unit suffix) and from the unit suffix itself, so that a
+// decision taken on any other string than the plain sanitised name shows.  Model: the recorder model (`prom …` ops,
+// Model/Prom.lean; theorem `exposed_type_iff_buckets_apply`); oracle: precedence and bucket counts written down here.
+
+fn own_unit_suffix(u: Option<metrics::Unit>) -> String {
+    // exposition convention as documented for `set_enable_unit_suffix`: `_<unit>`, `Count` adds nothing, `Percent` is a ratio
+    match u {
+        None | Some(metrics::Unit::Count) => String::new(),
+        Some(metrics::Unit::Percent) => "_ratio".into(),
+        Some(u) => format!("_{}", u.as_str()),
+    }
+}
+
+struct ExpoName {
+    raw: String,
+    /// describe calls: (unit, text, before the first record?)
+    descs: Vec<(Option<metrics::Unit>, String, bool)>,
+    label_sets: Vec<Vec<(String, String)>>,
+}
+
+struct ExpoCase {
+    unit_suffix: bool,
+    global: Option<Vec<i64>>,
+    calls: Vec<(u8, String, Vec<i64>)>,
+    names: Vec<ExpoName>,
+    /// (name index, label set index, value) in recording order; `None` = run_upkeep
+    history: Vec<Option<(usize, usize, i64)>>,
+}
+
+/// bounds of the `idx`-th builder call: strictly increasing, 1-12 of them, the first one identifies the call
+fn expo_rule_bounds(r: &mut Rng, idx: usize) -> Vec<i64> {
+    let n = *r.pick(&[1usize, 2, 3, 3, 5, 8, 9, 12]);
+    let mut v = vec![1024 * (idx as i64 + 1) - 40 * 1024];
+    for _ in 1..n {
+        let last = *v.last().unwrap();
+        v.push(last + *r.pick(&[1i64, 512, 1024, 4096, 50_000]));
+    }
+    v
+}
+
+fn gen_expo_case(r: &mut Rng) -> ExpoCase {
+    use crate::c08::UNITS;
+    let bases = ["request_latency", "queue_wait", "lat", "reqs", "http.requests", "mem", "q.depth", "io-wait", "a", "svc:rate", "disk_io", "9lives"];
+    let unit_suffix = !r.chance(1, 4);
+    let nnames = r.range(1, 4);
+    let mut names: Vec<ExpoName> = vec![];
+    let mut fams: Vec<String> = vec![];
+    let mut tries = 0;
+    while names.len() < nnames && tries < 40 {
+        tries += 1;
+        let mut raw = r.pick_str(&bases).to_string();
+        if r.chance(1, 4) {
+            raw.push_str(r.pick_str(&[".ms", "2", "_x", "_seconds"]));
+        }
+        let mut descs = vec![];
+        if r.chance(3, 4) {
+            for i in 0..r.range(1, 2) {
+                // units whose suffix is a likely Suffix pattern come more often
+                let unit = if r.chance(1, 8) {
+                    None
+                } else if r.chance(1, 2) {
+                    Some(*r.pick(&[metrics::Unit::Seconds, metrics::Unit::Bytes, metrics::Unit::Milliseconds, metrics::Unit::Percent]))
+                } else {
+                    Some(*r.pick(&UNITS))
+                };
+                descs.push((unit, r.pick_str(&["first", "second help", ""]).to_string(), i == 0 && r.chance(2, 3)));
+            }
+        }
+        let san = own_sanitize(&raw);
+        let fam = format!("{}{}", san, if unit_suffix { own_unit_suffix(descs.first().and_then(|d| d.0)) } else { String::new() });
+        // distinct families: neither the plain nor the exposed name equals or `_`-extends another one (families that
+        // collide through unit / type suffixes are C08's recorded finding, not this property)
+        let clash = fams.iter().any(|o| {
+            [&san, &fam].iter().any(|x| *o == **x || x.starts_with(&format!("{}_", o)) || o.starts_with(&format!("{}_", x)))
+        });
+        if clash {
+            continue;
+        }
+        fams.push(san.clone());
+        if fam != san {
+            fams.push(fam);
+        }
+        let nsets = *r.pick(&[1usize, 1, 2, 3]);
+        let mut label_sets: Vec<Vec<(String, String)>> = vec![];
+        for k in 0..nsets {
+            let ls = match k {
+                0 if r.chance(1, 2) => vec![],
+                _ => vec![("host".to_string(), format!("h{}", k)), ("zone".to_string(), r.pick_str(&["eu", "us"]).to_string())],
+            };
+            if !label_sets.contains(&ls) {
+                label_sets.push(ls);
+            }
+        }
+        names.push(ExpoName { raw, descs, label_sets });
+    }
+    // ---- the override table
+    let ncalls = *r.pick(&[0usize, 1, 2, 2, 3, 3, 4, 6, 9, 12, 16, 24]);
+    let mut calls: Vec<(u8, String, Vec<i64>)> = vec![];
+    for i in 0..ncalls {
+        let nm = &names[r.below(names.len())];
+        let raw = nm.raw.clone();
+        let chars: Vec<char> = raw.chars().collect();
+        // the suffix this name is (or could be) exposed with
+        let sfx = match nm.descs.first().and_then(|d| d.0) {
+            Some(u) if !own_unit_suffix(Some(u)).is_empty() => own_unit_suffix(Some(u)),
+            _ => own_unit_suffix(Some(*r.pick(&[metrics::Unit::Seconds, metrics::Unit::Bytes, metrics::Unit::Percent]))),
+        };
+        let exposed = format!("{}{}", raw, sfx);
+        let kind = r.below(3) as u8;
+        let mut pat: String = match (kind, r.below(6)) {
+            (0, 0) | (0, 1) => raw.clone(),
+            (0, 2) | (0, 3) => exposed.clone(),
+            (0, 4) => format!("{}{}", raw, r.below(10)), // near miss
+            (0, _) => chars[..chars.len() - 1].iter().collect(),
+            (1, 0) => raw.clone(),
+            (1, 1) => format!("{}_", raw), // matches the exposed name only
+            (1, 2) => exposed.chars().take(chars.len() + 1 + r.below(sfx.len().max(1))).collect(),
+            (1, 3) => exposed.clone(),
+            (1, _) => chars[..r.range(0, chars.len())].iter().collect(),
+            (_, 0) => sfx.clone(),
+            (_, 1) => sfx.trim_start_matches('_').to_string(),
+            (_, 2) => exposed.chars().skip(r.range(0, chars.len())).collect(),
+            (_, 3) => raw.clone(),
+            (_, _) => chars[r.range(0, chars.len())..].iter().collect(),
+        };
+        match r.below(6) {
+            0 => pat = pat.replace('_', "."),
+            1 => pat = pat.replace('.', "_"),
+            2 => pat = pat.replace('_', "-"),
+            _ => {}
+        }
+        calls.push((kind, pat, expo_rule_bounds(r, i)));
+    }
+    let global = if r.chance(1, 5) { Some(vec![-3 * 1024, 7 * 1024, 9 * 1024]) } else { None };
+    // ---- history
+    let mut history = vec![];
+    let nrec = r.range(1, 30);
+    for _ in 0..nrec {
+        if r.chance(1, 8) {
+            history.push(None);
+            continue;
+        }
+        let ni = r.below(names.len());
+        let li = r.below(names[ni].label_sets.len());
+        let v = if !calls.is_empty() && r.chance(1, 2) {
+            // equal to a bound of some rule
+            let c = &calls[r.below(calls.len())];
+            *r.pick(&c.2)
+        } else {
+            r.range(0, 100_000) as i64 - 50_000
+        };
+        history.push(Some((ni, li, v)));
+    }
+    ExpoCase { unit_suffix, global, calls, names, history }
+}
+
+/// lenient reading of an exposition text (no family-membership rules: those are what is being checked)
+struct Lenient {
+    types: Vec<(String, String)>,
+    samples: Vec<(String, Vec<(String, String)>, String)>,
+    unparseable: Vec<String>,
+}
+fn read_lenient(text: &str) -> Lenient {
+    let mut l = Lenient { types: vec![], samples: vec![], unparseable: vec![] };
+    for line in text.strip_suffix('\n').unwrap_or(text).split('\n') {
+        match expo::parse_line(line) {
+            Ok(expo::PLine::Type { name, ty }) => l.types.push((name, ty)),
+            Ok(expo::PLine::Sample { name, labels, value }) => l.samples.push((name, labels, value)),
+            Ok(_) => {}
+            Err(_) => l.unparseable.push(line.to_string()),
+        }
+    }
+    l
+}
+
+fn run_expo_case(out: &mut Out, c: &ExpoCase) {
+    let ints = |v: &[i64]| v.iter().map(|n| n.to_string()).collect::<Vec<_>>().join("+");
+    let matcher = |kind: u8, pat: &str| match kind {
+        0 => Matcher::Full(pat.to_string()),
+        1 => Matcher::Prefix(pat.to_string()),
+        _ => Matcher::Suffix(pat.to_string()),
+    };
+    // the builder refuses an empty bound list (else `Distribution::new_histogram(&[])` panics at the first drain)
+    if let Some((k, p, _)) = c.calls.first() {
+        if PrometheusBuilder::new().set_buckets_for_metric(matcher(*k, p), &[]).is_ok() {
+            out.oracle_fail("builder accepted an empty bucket list", &format!("set_buckets_for_metric({:?}, &[])", matcher(*k, p)));
+        }
+    }
+    let mut b = PrometheusBuilder::new().set_enable_unit_suffix(c.unit_suffix);
+    if let Some(g) = &c.global {
+        b = b.set_buckets(&g.iter().map(|n| dy(*n)).collect::<Vec<_>>()).unwrap();
+    }
+    for (kind, pat, bs) in &c.calls {
+        b = b.set_buckets_for_metric(matcher(*kind, pat), &bs.iter().map(|n| dy(*n)).collect::<Vec<_>>()).unwrap();
+    }
+    let rec = b.build_recorder();
+    let handle = rec.handle();
+    let qtexts = ["0", "0.5", "0.9", "0.95", "0.99", "0.999", "1"];
+    out.op(
+        &format!(
+            "prom new {} {} {} {} {}",
+            c.unit_suffix as u8,
+            pairs(&[]),
+            c.global.as_ref().map(|g| ints(g)).unwrap_or("~".into()),
+            list(c.calls.iter().map(|(k, p, bs)| format!("{}/{}/{}", ["full", "prefix", "suffix"][*k as usize], hexs(p), ints(bs)))),
+            list(qtexts.iter().map(|q| hexs(q)))
+        ),
+        "ok",
+    );
+    out.count(&format!(
+        "E.unit_suffix={} calls={} global={}",
+        c.unit_suffix,
+        match c.calls.len() {
+            0 => "0",
+            1..=4 => "1-4",
+            5..=9 => "5-9",
+            _ => ">9",
+        },
+        c.global.is_some()
+    ));
+    let keys: Vec<Vec<Key>> = c
+        .names
+        .iter()
+        .map(|n| {
+            n.label_sets
+                .iter()
+                .map(|ls| Key::from_parts(n.raw.clone(), ls.iter().map(|(k, v)| metrics::Label::new(k.clone(), v.clone())).collect::<Vec<_>>()))
+                .collect()
+        })
+        .collect();
+    let describe = |out: &mut Out, n: &ExpoName, before: bool| {
+        for (i, (unit, text, bf)) in n.descs.iter().enumerate() {
+            if *bf == before {
+                let kn = metrics::KeyName::from(n.raw.clone());
+                // descriptions are kept per name whatever the kind they were given for
+                if i == 1 {
+                    rec.describe_gauge(kn, *unit, text.clone().into());
+                } else {
+                    rec.describe_histogram(kn, *unit, text.clone().into());
+                }
+                out.op(&format!("prom describe {} {} {}", hexs(&n.raw), crate::c08::unit_tok(*unit), hexs(text)), "ok");
+            }
+        }
+    };
+    for n in &c.names {
+        describe(out, n, true);
+    }
+    // own tally: samples per (name, label set)
+    let mut tally: Vec<Vec<Vec<i64>>> = c.names.iter().map(|n| n.label_sets.iter().map(|_| vec![]).collect()).collect();
+    // the override map as the builder keeps it: a later call with the same sanitised matcher replaces
+    let mut map: Vec<(u8, String, Vec<i64>)> = vec![];
+    for (k, p, bs) in &c.calls {
+        let sp = own_sanitize(p);
+        if let Some(e) = map.iter_mut().find(|(k2, p2, _)| k2 == k && *p2 == sp) {
+            e.2 = bs.clone();
+        } else {
+            map.push((*k, sp, bs.clone()));
+        }
+    }
+    let check_render = |out: &mut Out, tally: &Vec<Vec<Vec<i64>>>, after_done: bool| {
+        let text = handle.render();
+        out.op("prom render", &prom::canonical(&text));
+        if let Err(e) = expo::check_exposition(&text) {
+            out.oracle_fail("render(): not well-formed exposition text", &format!("{} :: {:?}", e, text));
+        }
+        let rd = read_lenient(&text);
+        for (ni, n) in c.names.iter().enumerate() {
+            if tally[ni].iter().all(|t| t.is_empty()) {
+                continue; // nothing recorded under this name yet
+            }
+            let own = own_sanitize(&n.raw);
+            // the first description in time (only the first of the list can precede the records)
+            let first_unit = n.descs.first().filter(|d| d.2 || after_done).and_then(|d| d.0);
+            let fam = format!("{}{}", own, if c.unit_suffix { own_unit_suffix(first_unit) } else { String::new() });
+            let matching = |kind: u8| -> Vec<Vec<i64>> {
+                map.iter()
+                    .filter(|(k, p, _)| {
+                        *k == kind
+                            && match kind {
+                                0 => own == *p,
+                                1 => own.starts_with(p.as_str()),
+                                _ => own.ends_with(p.as_str()),
+                            }
+                    })
+                    .map(|x| x.2.clone())
+                    .collect()
+            };
+            let (rule, allowed): (&str, Vec<Vec<i64>>) = if !matching(0).is_empty() {
+                ("full", matching(0))
+            } else if !matching(1).is_empty() {
+                ("prefix", matching(1))
+            } else if !matching(2).is_empty() {
+                ("suffix", matching(2))
+            } else if let Some(g) = &c.global {
+                ("global", vec![g.clone()])
+            } else {
+                ("summary", vec![])
+            };
+            out.count(&format!("E.rule={}", rule));
+            let want_ty = if rule == "summary" { "summary" } else { "histogram" };
+            let tys: Vec<&String> = rd.types.iter().filter(|(f, _)| *f == fam).map(|x| &x.1).collect();
+            let describe_input = || {
+                format!(
+                    "set_enable_unit_suffix({}) global={:?} set_buckets_for_metric calls (kind 0 full/1 prefix/2 suffix, pattern, bounds*1024)={:?}; histogram {:?} described {:?}, label sets {:?}, samples*1024 {:?}",
+                    c.unit_suffix, c.global, c.calls, n.raw, n.descs, n.label_sets, tally[ni]
+                )
+            };
+            if tys.len() != 1 || tys[0] != want_ty {
+                out.oracle_fail(
+                    "histogram name not exposed with the buckets of the first applicable rule (full, prefix, suffix, global, else summary)",
+                    &format!("{}: rule={} expected `# TYPE {} {}`, got TYPE lines {:?} in {:?}", describe_input(), rule, fam, want_ty, tys, text),
+                );
+                continue;
+            }
+            for (li, ls) in n.label_sets.iter().enumerate() {
+                let vals = &tally[ni][li];
+                if vals.is_empty() {
+                    continue;
+                }
+                let mine: Vec<&(String, Vec<(String, String)>, String)> = rd
+                    .samples
+                    .iter()
+                    .filter(|(sn, l, _)| {
+                        (sn == &fam || sn == &format!("{}_bucket", fam) || sn == &format!("{}_sum", fam) || sn == &format!("{}_count", fam))
+                            && l.iter().filter(|(k, _)| k != "le" && k != "quantile").cloned().collect::<Vec<_>>() == *ls
+                    })
+                    .collect();
+                let buckets: Vec<(String, String)> = mine
+                    .iter()
+                    .filter(|(sn, _, _)| sn.ends_with("_bucket") && *sn == format!("{}_bucket", fam))
+                    .map(|(_, l, v)| (l.iter().find(|(k, _)| k == "le").map(|x| x.1.clone()).unwrap_or_default(), v.clone()))
+                    .collect();
+                let quants: Vec<(String, String)> = mine
+                    .iter()
+                    .filter(|(sn, l, _)| *sn == fam && l.iter().any(|(k, _)| k == "quantile"))
+                    .map(|(_, l, v)| (l.iter().find(|(k, _)| k == "quantile").unwrap().1.clone(), v.clone()))
+                    .collect();
+                let cnt = mine.iter().find(|(sn, _, _)| *sn == format!("{}_count", fam)).map(|x| x.2.clone());
+                let sum = mine.iter().find(|(sn, _, _)| *sn == format!("{}_sum", fam)).and_then(|x| x.2.parse::<f64>().ok());
+                let total: i64 = vals.iter().sum();
+                if cnt != Some(vals.len().to_string()) || sum != Some(dy(total)) {
+                    out.oracle_fail(
+                        "rendered _count/_sum do not cover all samples",
+                        &format!("{}: labels {:?}: _count {:?} _sum {:?}", describe_input(), ls, cnt, sum),
+                    );
+                }
+                if rule == "summary" {
+                    let labels: Vec<&str> = quants.iter().map(|x| x.0.as_str()).collect();
+                    if !buckets.is_empty() || labels != qtexts {
+                        out.oracle_fail(
+                            "histogram name not exposed with the buckets of the first applicable rule (full, prefix, suffix, global, else summary)",
+                            &format!("{}: rule=summary, labels {:?}: bucket lines {:?}, quantile labels {:?}", describe_input(), ls, buckets, labels),
+                        );
+                    }
+                    let (mn, mx) = vals.iter().fold((f64::INFINITY, f64::NEG_INFINITY), |(a, b), x| (a.min(dy(*x)), b.max(dy(*x))));
+                    for (q, v) in &quants {
+                        // everything was recorded within the last milliseconds: the window holds all samples
+                        let x: f64 = v.parse().unwrap_or(f64::NAN);
+                        let slack = SKETCH_ALPHA * mn.abs().max(mx.abs()) + SKETCH_MIN_VALUE;
+                        if !(x >= mn - slack && x <= mx + slack) {
+                            out.oracle_fail(
+                                "summary quantile outside [min,max] of the samples in the window",
+                                &format!("{}: labels {:?}: quantile={} shows {} (min {} max {})", describe_input(), ls, q, v, mn, mx),
+                            );
+                        }
+                    }
+                } else {
+                    // the `le` lines in rendering order: the bounds of one applicable rule, then +Inf
+                    let les: Vec<i64> = buckets.iter().filter(|x| x.0 != "+Inf").map(|x| (x.0.parse::<f64>().unwrap_or(f64::NAN) * 1024.0) as i64).collect();
+                    let inf: Vec<&(String, String)> = buckets.iter().filter(|x| x.0 == "+Inf").collect();
+                    if !allowed.contains(&les) || !quants.is_empty() || inf.len() != 1 || buckets.last().map(|x| x.0.as_str()) != Some("+Inf") {
+                        out.oracle_fail(
+                            "histogram name not exposed with the buckets of the first applicable rule (full, prefix, suffix, global, else summary)",
+                            &format!("{}: rule={} allowed bounds*1024 {:?}, labels {:?}: le lines {:?}, quantile lines {:?}", describe_input(), rule, allowed, ls, buckets, quants),
+                        );
+                        continue;
+                    }
+                    let mut prev = 0u64;
+                    for (le, v) in &buckets {
+                        let got: u64 = v.parse().unwrap_or(u64::MAX);
+                        let want = if le == "+Inf" {
+                            vals.len() as u64
+                        } else {
+                            let b: f64 = le.parse().unwrap();
+                            vals.iter().filter(|x| dy(**x) <= b).count() as u64
+                        };
+                        if got != want || got < prev {
+                            out.oracle_fail(
+                                "histogram bucket count is not the number of samples <= bound",
+                                &format!("{}: labels {:?}: le={} want {} got {} (previous line {})", describe_input(), ls, le, want, got, prev),
+                            );
+                        }
+                        prev = got;
+                    }
+                    if les.len() > 8 {
+                        out.count("E.rendered histogram with more than 8 bounds");
+                    }
+                }
+            }
+            if n.label_sets.len() > 1 {
+                out.count("E.name with several label sets");
+            }
+            if c.unit_suffix && fam != own {
+                out.count(&format!("E.exposed under a unit suffix, rule={}", rule));
+                if c.calls.len() >= 2 {
+                    out.nontrivial();
+                }
+            }
+        }
+    };
+    let mut described_after = false;
+    let nh = c.history.len();
+    for (i, h) in c.history.iter().enumerate() {
+        match h {
+            None => {
+                handle.run_upkeep();
+                out.op("prom upkeep", "ok");
+            }
+            Some((ni, li, v)) => {
+                rec.register_histogram(&keys[*ni][*li], &META).record(dy(*v));
+                tally[*ni][*li].push(*v);
+                let ls: Vec<(String, String)> = c.names[*ni].label_sets[*li].clone();
+                out.op(&format!("prom hrec {} {} {}", hexs(&c.names[*ni].raw), pairs(&ls), v), "ok");
+            }
+        }
+        if i == nh / 2 {
+            // a first render in the middle: the distributions exist from here on (`or_insert_with`), later descriptions
+            // change the family name but must not change the type
+            check_render(out, &tally, false);
+            for n in &c.names {
+                describe(out, n, false);
+            }
+            described_after = true;
+        }
+    }
+    if !described_after {
+        for n in &c.names {
+            describe(out, n, false);
+        }
+    }
+    check_render(out, &tally, true);
+}
+
+fn expo_corpus() -> Vec<ExpoCase> {
+    use metrics::Unit;
+    let s = |x: &str| x.to_string();
+    let nm = |raw: &str, unit: Option<Unit>| ExpoName { raw: s(raw), descs: vec![(unit, s("help"), true)], label_sets: vec![vec![], vec![(s("host"), s("h1"))]] };
+    let hist = |n: usize| -> Vec<Option<(usize, usize, i64)>> {
+        (0..n).flat_map(|i| vec![Some((i, 0, 512)), Some((i, 1, 2048)), Some((i, 0, 1024))]).collect()
+    };
+    vec![
+        // a Full override of the plain name, the name exposed under a unit suffix; a Suffix override equal to the unit
+        // suffix of a name no buckets apply to (past seeded defect: the type decided on the exposed family name)
+        ExpoCase {
+            unit_suffix: true,
+            global: None,
+            calls: vec![(0, s("request_latency"), vec![512, 1024, 4096]), (2, s("_seconds"), vec![100, 200])],
+            names: vec![nm("request_latency", Some(Unit::Seconds)), nm("queue_wait", Some(Unit::Seconds))],
+            history: hist(2),
+        },
+        // overrides that match the exposed name only (Full of name+suffix, Prefix `name_`), and the same with suffixes off
+        ExpoCase {
+            unit_suffix: true,
+            global: None,
+            calls: vec![(0, s("mem_bytes"), vec![1024]), (1, s("lat_"), vec![2048, 4096]), (2, s("ratio"), vec![1, 2, 3])],
+            names: vec![nm("mem", Some(Unit::Bytes)), nm("lat", Some(Unit::Milliseconds)), nm("a", Some(Unit::Percent))],
+            history: hist(3),
+        },
+        ExpoCase {
+            unit_suffix: false,
+            global: None,
+            calls: vec![(0, s("request_latency"), vec![512, 1024, 4096]), (2, s("_seconds"), vec![100, 200])],
+            names: vec![nm("request_latency", Some(Unit::Seconds)), nm("queue_wait", Some(Unit::Seconds))],
+            history: hist(2),
+        },
+        // a table of 20 matchers, the deciding Full one sorting into the middle
+        ExpoCase {
+            unit_suffix: true,
+            global: Some(vec![7168]),
+            calls: (0..20)
+                .map(|i| match i % 3 {
+                    0 => (0u8, format!("m{}", i), vec![1024 * (i as i64 + 1)]),
+                    1 => (1u8, format!("l{}", i), vec![1024 * (i as i64 + 1)]),
+                    _ => (2u8, format!("t{}", i), vec![1024 * (i as i64 + 1)]),
+                })
+                .chain(vec![(0u8, s("lat"), vec![5, 6, 7]), (1u8, s("la"), vec![8, 9]), (2u8, s("at"), vec![10, 11])])
+                .collect(),
+            names: vec![nm("lat", Some(Unit::Seconds)), nm("m9", None), nm("zzt17", None)],
+            history: hist(3),
+        },
+    ]
+}
+
+// ---------------------------------------------------------------------------------------------
 // stream W: the window through a real recorder (record and render under `quanta::with_clock`)
 
 fn run_window_session(r: &mut Rng, out: &mut Out) {
     // either setter may be left out: the documentation promises 3 buckets ("Defaults to 3") of 20 s ("Defaults to 20
     // seconds") for whichever was not set, independently of the other
-    let set_n: Option<u32> = if r.chance(2, 3) { Some(*r.pick(&[1u32, 2, 3, 4, 5, 7])) } else { None };
+    let set_n: Option<u32> = if r.chance(2, 3) { Some(*r.pick(&[1u32, 2, 3, 4, 5, 7, 17, 40])) } else { None };
     let set_d: Option<u64> = if r.chance(2, 3) { Some(*r.pick(&[1u64, 5, 20, 30]) * 1_000_000_000) } else { None };
     let n = set_n.unwrap_or(3);
     let d = set_d.unwrap_or(20_000_000_000);
@@ -1088,7 +1604,11 @@ fn run_window_session(r: &mut Rng, out: &mut Out) {
     let start = *r.pick(&[0, d, 10 * w + 17]);
     mock.increment(start);
     let mut t: u64 = start;
-    let mut b = PrometheusBuilder::new().set_quantiles(&[0.0, 0.5, 1.0]).unwrap();
+    // which value stands under which `quantile=` label: besides 0, 0.5 and 1, four interior quantiles, each compared
+    // with the model's answer for exactly that quantile (`rquant`).  0.25/0.75 are dyadic; for 0.9 and 0.999 the f64
+    // product q*(k-1) and the rational one have the same integer part for every k-1 <= 12 (at most 12 samples here).
+    let interior: [(&str, u64, u64); 5] = [("0.25", 1, 4), ("0.5", 1, 2), ("0.75", 3, 4), ("0.9", 9, 10), ("0.999", 999, 1000)];
+    let mut b = PrometheusBuilder::new().set_quantiles(&[0.0, 0.25, 0.5, 0.75, 0.9, 0.999, 1.0]).unwrap();
     // in either order
     let count_first = r.chance(1, 2);
     if count_first {
@@ -1175,6 +1695,30 @@ fn run_window_session(r: &mut Rng, out: &mut Out) {
             }
             if upper.len() < added.len() {
                 out.nontrivial();
+            }
+            // every configured interior quantile, under its own label: the model names the sample whose bin answers
+            let labels: Vec<&str> =
+                f.samples.iter().filter(|(sn, _, _)| sn == "win").filter_map(|(_, ls, _)| ls.iter().find(|(k, _)| k == "quantile").map(|x| x.1.as_str())).collect();
+            if labels != ["0", "0.25", "0.5", "0.75", "0.9", "0.999", "1"] {
+                out.oracle_fail("rendered summary does not show the configured quantiles", &format!("{:?}", labels));
+            }
+            for (label, num, den) in interior.iter() {
+                let x = get("win", Some(label)).unwrap_or(f64::NAN);
+                let tok = if x == 0.0 {
+                    "none".to_string()
+                } else {
+                    match table.iter().find(|n| near(x, dy(**n))) {
+                        Some(n) => n.to_string(),
+                        None => {
+                            out.oracle_fail(
+                                "summary quantile is not within the sketch's relative error of any recorded sample",
+                                &format!("now={} adds={:?} rendered quantile={} shows {}", t, added, label, x),
+                            );
+                            "undecodable".to_string()
+                        }
+                    }
+                };
+                out.op(&format!("c15 rquant {} {} {}", t, num, den), &tok);
             }
             // model: count, sum and the emptiness of the window
             let retained_nonempty = !(q0 == 0.0 && q1 == 0.0);
@@ -1302,9 +1846,127 @@ fn run_multiblock_drain_case(out: &mut Out, first: usize, second: usize) {
     }
 }
 
+/// corpus: the four guards of the builder and `Histogram::new(&[])`.  None of the generated streams ever passes an empty
+/// list (they `unwrap()`), so a dropped guard would go unnoticed there; what it protects is the first drain of a
+/// matching histogram (`Distribution::new_histogram(&[])` panics under the `distributions` write lock).
+fn run_builder_guards(out: &mut Out) {
+    let ans = |ok: bool| if ok { "ok" } else { "err" };
+    let r1 = PrometheusBuilder::new().set_buckets(&[]).is_ok();
+    out.op("c15 guard buckets 0", ans(r1));
+    let r2 = PrometheusBuilder::new().set_buckets(&[1.0]).is_ok();
+    out.op("c15 guard buckets 1", ans(r2));
+    for (k, m) in [Matcher::Full("a".into()), Matcher::Prefix("".into()), Matcher::Suffix("_x".into())].into_iter().enumerate() {
+        let r = PrometheusBuilder::new().set_buckets_for_metric(m.clone(), &[]).is_ok();
+        out.op("c15 guard metric 0", ans(r));
+        let r = PrometheusBuilder::new().set_buckets_for_metric(m, &[0.5, 1.0]).is_ok();
+        out.op("c15 guard metric 2", ans(r));
+        let _ = k;
+    }
+    let r3 = PrometheusBuilder::new().set_quantiles(&[]).is_ok();
+    out.op("c15 guard quantiles 0", ans(r3));
+    let r4 = PrometheusBuilder::new().set_quantiles(&[0.5]).is_ok();
+    out.op("c15 guard quantiles 1", ans(r4));
+    let r5 = PrometheusBuilder::new().set_bucket_duration(Duration::from_nanos(0)).is_ok();
+    out.op("c15 guard duration 0", ans(r5));
+    let r6 = PrometheusBuilder::new().set_bucket_duration(Duration::from_nanos(1)).is_ok();
+    out.op("c15 guard duration 1", ans(r6));
+    if r1 || r3 || r5 {
+        out.oracle_fail("builder accepted an empty bucket list", &format!("set_buckets(&[]) ok={} set_quantiles(&[]) ok={} set_bucket_duration(0) ok={}", r1, r3, r5));
+    }
+    // `Histogram::new(&[])` is `None`, and that is what the model says
+    out.op("c15 hnew 0 .", if Histogram::new(&[]).is_some() { "ok" } else { "none" });
+    // after a rejected call a fresh builder works as if nothing had happened: an accepted empty list would panic here
+    let rec = PrometheusBuilder::new().set_buckets_for_metric(Matcher::Full("g".into()), &[1.0]).unwrap().build_recorder();
+    rec.register_histogram(&Key::from_name("g"), &META).record(0.5);
+    let text = rec.handle().render();
+    if !text.contains("g_bucket{le=\"1\"} 1") {
+        out.oracle_fail("histogram bucket count is not the number of samples <= bound", &text);
+    }
+    out.count("G.builder guards");
+}
+
+/// corpus, observations (no oracle: each is reported in the counters, see REPORT): inputs the property's quantifier names
+/// but whose outcome on the real code is a finding rather than a law.
+fn run_observations(out: &mut Out) {
+    // (a) a bound list that contains +Inf, rendered: `render` prints every bound and then its own `le="+Inf"` line
+    let rec = PrometheusBuilder::new().set_buckets(&[1.0, f64::INFINITY]).unwrap().build_recorder();
+    let h = rec.register_histogram(&Key::from_name("infb"), &META);
+    h.record(0.5);
+    h.record(f64::NAN);
+    let text = rec.handle().render();
+    let inf_lines: Vec<&str> = text.lines().filter(|l| l.starts_with("infb_bucket") && (l.contains("le=\"+Inf\"") || l.contains("le=\"inf\""))).collect();
+    let all_bucket_lines: Vec<&str> = text.lines().filter(|l| l.starts_with("infb_bucket")).collect();
+    out.count(&format!(
+        "O.observation: bounds [1, +Inf], samples 0.5 and NaN: bucket lines {:?} ({} of them say +Inf; exposition check: {})",
+        all_bucket_lines,
+        inf_lines.len(),
+        match expo::check_exposition(&text) {
+            Ok(_) => "well-formed".to_string(),
+            Err(e) => format!("REJECTED: {}", e),
+        }
+    ));
+    // (b) a window that holds only NaN samples
+    let (clock, _mock) = Clock::mock();
+    let mut dist = Distribution::new_summary(Arc::new(parse_quantiles(&[0.0, 0.5, 1.0])), Duration::from_nanos(10), NonZeroU32::new(2).unwrap());
+    dist.record_samples(&[(f64::NAN, clock.now())]);
+    if let Distribution::Summary(s, _, _) = &dist {
+        let snap = s.snapshot(clock.now());
+        out.count(&format!(
+            "O.observation: NaN-only window: count {} quantile(0)={:?} quantile(0.5)={:?} quantile(1)={:?}",
+            snap.count(),
+            snap.quantile(0.0),
+            snap.quantile(0.5),
+            snap.quantile(1.0)
+        ));
+    }
+    // (c) the largest bucket count the builder accepts (`NonZeroU32::MAX`): in a child process, since an allocation failure
+    // aborts.  `RollingSummary::new` reserves `Vec::with_capacity(count)` when the first sample of a summary is drained.
+    for (name, count) in [("u32::MAX", u32::MAX), ("10^7", 10_000_000u32), ("10^4", 10_000u32)] {
+        let exe = match std::env::current_exe() {
+            Ok(e) => e,
+            Err(_) => return,
+        };
+        let dir = out.dir.join(format!("probe-{}", count));
+        let t0 = std::time::Instant::now();
+        let res = std::process::Command::new(exe)
+            .args(["C15", "--seed", "1", "--cases", "0", "--out"])
+            .arg(&dir)
+            .env("MV_C15_PROBE_BUCKET_COUNT", count.to_string())
+            .stdout(std::process::Stdio::piped())
+            .stderr(std::process::Stdio::piped())
+            .output();
+        let outcome = match res {
+            Ok(o) => {
+                let so = String::from_utf8_lossy(&o.stdout).to_string();
+                let se = String::from_utf8_lossy(&o.stderr).to_string();
+                if o.status.success() && so.contains("probe-ok") {
+                    format!("renders ({})", so.trim())
+                } else {
+                    format!("PROCESS DIED: status {:?}, stderr {:?}", o.status.code(), se.lines().next().unwrap_or(""))
+                }
+            }
+            Err(e) => format!("probe not run: {}", e),
+        };
+        let _ = t0;
+        out.count(&format!("O.observation: set_bucket_count({}) then one sample and a render: {}", name, outcome));
+    }
+}
+
+/// child side of observation (c)
+fn bucket_count_probe(count: u32) {
+    let rec = PrometheusBuilder::new().set_bucket_count(NonZeroU32::new(count).unwrap()).build_recorder();
+    rec.register_histogram(&Key::from_name("big"), &META).record(1.0);
+    let text = rec.handle().render();
+    println!("probe-ok big_count line present: {}", text.contains("big_count 1"));
+}
+
 // ---------------------------------------------------------------------------------------------
 
 pub fn run(cfg: &Cfg, out: &mut Out) {
+    if let Ok(v) = std::env::var("MV_C15_PROBE_BUCKET_COUNT") {
+        bucket_count_probe(v.parse().expect("probe count"));
+        std::process::exit(0);
+    }
     let root = Rng::new(cfg.seed);
     // corpus first
     for (i, c) in hist_corpus().iter().enumerate() {
@@ -1322,6 +1984,14 @@ pub fn run(cfg: &Cfg, out: &mut Out) {
         out.case(&format!("corpus dist {}", i));
         run_dist_case(out, c);
     }
+    for (i, c) in expo_corpus().iter().enumerate() {
+        out.case(&format!("corpus exposure {}", i));
+        run_expo_case(out, c);
+    }
+    out.case("corpus builder guards");
+    run_builder_guards(out);
+    out.case("corpus observations");
+    run_observations(out);
     out.case("corpus render inf,-1");
     run_render_inf_case(out, f64::INFINITY, -1.0);
     out.case("corpus render -inf,0");
@@ -1335,6 +2005,11 @@ pub fn run(cfg: &Cfg, out: &mut Out) {
     for i in 0..cfg.cases {
         let mut r = root.fork(i as u64);
         match i % 8 {
+            1 if (i / 8) % 2 == 1 => {
+                out.case(&format!("seed={} i={} exposure", cfg.seed, i));
+                let c = gen_expo_case(&mut r);
+                run_expo_case(out, &c);
+            }
             0 | 1 => {
                 out.case(&format!("seed={} i={} hist exact", cfg.seed, i));
                 let c = gen_hist_case(&mut r, true);
